@@ -26,7 +26,7 @@ REJ_MSG = {
     (1, 2): ["Failed to parse trade date", "Failed to parse settlement date"],
     (1, 3): ["Invalid action"],
     (1, 4): ["Invalid number in superficial loss", "Was positive value"],
-    (1, 5): ["does not match N-for-M split format", "Error on row"],
+    (1, 5): ["does not match N-for-M split format", "does not match constraints of", "Invalid decimal"],
     (1, 10): ["\"action\" not specified"],
     (1, 11): ["specified but \"currency\" not found", "specified but \"commission currency\" not found"],
     (1, 12): ["specified but \"exchange rate\" not found", "specified but \"commission exchange rate\" not found"],
@@ -155,6 +155,8 @@ def parse_out(ints):
 def rej_matches(rej, msg):
     pats = REJ_MSG.get(tuple(rej))
     if pats is None:
+        return False
+    if tuple(rej) == (1, 5) and "Failed to parse" in msg:
         return False
     return any(p in msg for p in pats)
 
@@ -294,3 +296,154 @@ def run_pass(hcs, impl_raws, inits_list, py_models=None, arith=1):
                               (core.diff_exact(m["result"], py_models[k], fields=("act", "af", "sd", "pre", "post", "gain", "sfl", "sfla"))
                                or "outputs differ (status %s vs %s)" % (m["result"].get("status"), py_models[k].get("status")))))
     return diffs, st, outs
+
+
+# ---------------------------------------------------------------- corpus aimed at the glue
+def T(header, *rows):
+    """CSV text of a table given as lists of cells"""
+    out = [",".join(core.csv_quote(c) for c in header)]
+    for r in rows:
+        out.append(",".join(core.csv_quote(c) for c in r))
+    return "\n".join(out) + "\n"
+
+
+H = ["security", "trade date", "settlement date", "action", "shares", "amount/share", "commission",
+     "currency", "exchange rate", "commission currency", "commission exchange rate",
+     "superficial loss", "split ratio", "affiliate", "memo"]
+
+
+def R(**kw):
+    """one record under header H; keys: sec td sd act sh aps com cur fx ccur cfx sfl ratio af memo"""
+    keys = ["sec", "td", "sd", "act", "sh", "aps", "com", "cur", "fx", "ccur", "cfx", "sfl", "ratio", "af", "memo"]
+    d = {"sec": "FOO", "td": "2020-03-02", "sd": "2020-03-04", "act": "Buy", "sh": "10", "aps": "2.50"}
+    d.update(kw)
+    return [d.get(k, "") for k in keys]
+
+
+def glue_corpus():
+    from core import D
+    c = []
+
+    def add(name, files, inits=None):
+        c.append({"name": name, "files": files if isinstance(files, list) else [files], "inits": inits or {}})
+
+    buy = R()
+    sell = R(act="Sell", td="2020-06-01", sd="2020-06-03", sh="4", aps="3.10", com="1.99")
+    # commission currencies and rates
+    add("commission in the transaction's currency with its own rate",
+        T(H, R(cur="USD", fx="1.30", com="9.99", ccur="USD", cfx="1.25"),
+          R(act="Sell", td="2020-06-01", sd="2020-06-03", sh="4", aps="3", cur="usd", fx="1.4", com="5", ccur="usd", cfx="1.1")))
+    add("commission currency CAD without a rate on a USD trade",
+        T(H, R(cur="USD", fx="1.30", com="9.99", ccur="CAD"), R(act="Sell", td="2020-06-01", sd="2020-06-03", sh="4", aps="3", cur="USD", fx="1.2", com="1", ccur="cad")))
+    add("commission currency CAD with rate 1.0", T(H, R(cur="EUR", fx="1.55", com="2", ccur="CAD", cfx="1.0")))
+    add("commission rate without commission currency", T(H, R(com="2", cfx="1.2")))
+    add("commission currency USD without a rate (rate loader)", T(H, R(com="2", ccur="USD")))
+    add("commission currency EUR without a rate", T(H, R(com="2", ccur="EUR")))
+    add("commission currency given, no commission", T(H, R(cur="USD", fx="1.3", ccur="EUR", cfx="1.6")))
+    add("commission currency equal to a foreign transaction currency, no own rate", T(H, R(cur="EUR", fx="1.5", com="3", ccur="EUR")))
+    # rates for CAD
+    add("rate 1 / 1.0 / 1.000 given for CAD",
+        T(H, R(cur="CAD", fx="1"), R(td="2020-03-03", sd="2020-03-05", cur="cad", fx="1.0"), R(td="2020-03-04", sd="2020-03-06", cur="", fx="")))
+    add("rate 1.000 given for CAD on RoC", T(H, buy, R(act="RoC", td="2020-04-01", sd="2020-04-01", sh="", aps="0.10", cur="CAD", fx="1.000")))
+    add("rate 1.5 given for CAD", T(H, R(cur="CAD", fx="1.5")))
+    add("rate 0 given for CAD", T(H, R(cur="CAD", fx="0")))
+    add("rate without currency", T(H, R(fx="1.3")))
+    add("negative rate", T(H, R(cur="USD", fx="-1.3")))
+    add("foreign currency without rate (not USD)", T(H, R(cur="GBP")))
+    add("USD without rate (rate loader)", T(H, R(cur="USD")))
+    add("blank currency with commission currency", T(H, R(com="1", ccur="USD", cfx="1.25")))
+    # blank vs missing optional columns
+    short = ["security", "trade date", "settlement date", "action", "shares", "amount/share"]
+    add("only the six mandatory columns", T(short, ["FOO", "2020-03-02", "2020-03-04", "Buy", "10", "2.5"],
+                                            ["FOO", "2020-06-01", "2020-06-03", "sell", "4", "3.1"]))
+    add("all optional columns present and blank", T(H, buy, sell))
+    add("no shares column on a buy", T(["security", "trade date", "settlement date", "action", "amount/share"],
+                                       ["FOO", "2020-03-02", "2020-03-04", "Buy", "2.5"]))
+    add("no security column", T(["trade date", "settlement date", "action", "shares", "amount/share"],
+                                ["2020-03-02", "2020-03-04", "Buy", "1", "2.5"]))
+    add("blank security", T(H, R(sec="  ")))
+    add("no action", T(H, R(act="")))
+    add("no settlement date", T(H, R(sd="")))
+    add("no trade date on the second row, bad number on the first (order of the stages)",
+        T(H, R(sh="-1"), R(td="")))
+    add("legacy date column", T(["security", "trade date", "date", "action", "shares", "amount/share"],
+                                ["FOO", "2020-03-02", "2020-03-04", "Buy", "10", "2.5"]))
+    add("legacy and settlement date columns", T(["security", "trade date", "date", "settlement date", "action", "shares", "amount/share"],
+                                                ["FOO", "2020-03-02", "2020-03-04", "2020-03-05", "Buy", "10", "2.5"]))
+    add("a column given twice, the later non-blank cell wins",
+        T(["security", "shares", "trade date", "settlement date", "action", "Shares ", "amount/share", "SHARES"],
+          ["FOO", "7", "2020-03-02", "2020-03-04", "Buy", "10", "2.5", ""],
+          ["FOO", "1", "2020-06-01", "2020-06-03", "Sell", "", "3", "2"]))
+    add("short record", "security,trade date,settlement date,action,shares,amount/share\nFOO,2020-03-02,2020-03-04,Buy,10\n")
+    add("long record after a good one", "security,trade date,settlement date,action,shares,amount/share\nFOO,2020-03-02,2020-03-04,Buy,10,2\nFOO,2020-03-03,2020-03-05,Buy,10,2,9\n")
+    add("header only", T(H))
+    add("empty file then a file with rows (read index continues)", ["", T(H, buy), T(H), T(H, sell)])
+    add("error in the second file after a conversion error in the first", [T(H, R(sh="0")), T(H, R(act="bogus"))])
+    add("quoted cells, embedded comma and newline in the memo",
+        'security,trade date,settlement date,action,shares,amount/share,memo\n"FOO",2020-03-02,2020-03-04,Buy,"10",2.5,"a, ""b""\nc"\n')
+    add("non-ASCII memo and unknown header", T(H + ["Bemerkung ä"], buy + ["café ☃"]))
+    # affiliates
+    afs = ["Default", "default (R)", " B ", "(r)", "b", "B (R)", "Spouse  Two", "spouse two", "(R) Zed", "2nd", "default(R)", "DEFAULT"]
+    rows = []
+    for k, a in enumerate(afs):
+        rows.append(R(td="2020-03-%02d" % (2 + k), sd="2020-03-%02d" % (4 + k), af=a, sh=str(10 + k)))
+    add("affiliate spellings", T(H, *rows))
+    add("affiliate spellings, then a split for all and sales",
+        T(H, *(rows + [R(act="Split", td="2020-05-01", sd="2020-05-01", sh="", aps="", ratio="2-for-1"),
+                       R(act="Sell", td="2020-06-01", sd="2020-06-03", sh="3", aps="1.10", af="2ND"),
+                       R(act="Sell", td="2020-06-02", sd="2020-06-04", sh="3", aps="1.10", af="b (r)"),
+                       R(act="Sell", td="2020-06-02", sd="2020-06-04", sh="30", aps="1.10", af="")])))
+    add("loss sale with several buying affiliates (order of the affiliate ids)",
+        T(H, R(af="2nd", sh="10", aps="10"), R(af="Zed", sh="10", aps="10"), R(af="b", sh="10", aps="10"),
+          R(act="Sell", td="2020-03-10", sd="2020-03-12", sh="10", aps="5", af="2nd"),
+          R(td="2020-03-20", sd="2020-03-22", af="Zed", sh="3", aps="5"),
+          R(td="2020-03-20", sd="2020-03-22", af="b", sh="4", aps="5"),
+          R(td="2020-03-21", sd="2020-03-23", af="", sh="2", aps="5")))
+    add("affiliate cell naming the pseudo-affiliate on a split", T(H, buy, R(act="Split", td="2020-05-01", sd="2020-05-01", sh="", aps="", ratio="2-for-1", af="__global__")))
+    # split ratios
+    for ratio in ["2-for-1", "1.0-for-2.0", "3-for-2", "1-for-2", "2-FOR-1", " 1-for-3 ", "1.-for-2", "1-for-2.0",
+                  "1.5-for-1", "0-for-1", "2-for-", "2 for 1", "1-for-1", "10-for-4", "1-for-0.5", ".5-for-1", "2.-for-4."]:
+        add("split ratio %r on 5 shares" % ratio,
+            T(H, R(sh="5"), R(act="Split", td="2020-05-01", sd="2020-05-01", sh="", aps="", ratio=ratio),
+              R(act="Sell", td="2020-06-01", sd="2020-06-03", sh="1", aps="3")))
+    add("split without ratio", T(H, buy, R(act="Split", td="2020-05-01", sd="2020-05-01", sh="", aps="")))
+    add("split for all with an opening position", T(H, R(act="Split", td="2020-05-01", sd="2020-05-01", sh="", aps="", ratio="3-for-1"),
+                                                     R(act="Sell", td="2020-06-01", sd="2020-06-03", sh="20", aps="3")),
+        {"FOO": (D(10), D(10000, 2))})
+    add("split addressed to Default next to a split for all", T(H, buy, R(act="Split", td="2020-05-01", sd="2020-05-01", sh="", aps="", ratio="2-for-1", af="Default"),
+                                                                R(act="Split", td="2020-05-02", sd="2020-05-02", sh="", aps="", ratio="2-for-1")))
+    # dates
+    add("dates: invalid day", T(H, R(td="2020-02-30")))
+    add("dates: one-digit month", T(H, R(td="2020-3-02")))
+    add("dates: leap day and year boundaries", T(H, R(td="2020-02-29", sd="2020-03-02"), R(td="2020-12-31", sd="2021-01-04"),
+                                                  R(act="Sell", td="2021-01-29", sd="2021-02-02", sh="20", aps="1")))
+    add("dates: settlement before trade, far apart years", T(H, R(td="1999-12-31", sd="1999-12-30"), R(act="Sell", td="2100-03-01", sd="2100-03-01", sh="10", aps="1")))
+    # actions, numbers, superficial losses
+    add("action spellings", T(H, R(act=" BUY "), R(act="sElL", td="2020-06-01", sd="2020-06-03", sh="4", aps="3.1"),
+                              R(act="roc", td="2020-07-01", sd="2020-07-01", sh="", aps="0.1"),
+                              R(act="SFLA", td="2020-07-02", sd="2020-07-02", sh="1", aps="0.1")))
+    add("action with extra words", T(H, R(act="Sold Short")))
+    add("SfLA with USD", T(H, buy, R(act="SfLA", td="2020-07-02", sd="2020-07-02", sh="1", aps="0.1", cur="USD", fx="1.2")))
+    add("SfLA with CAD and rate 1", T(H, buy, R(act="SfLA", td="2020-07-02", sd="2020-07-02", sh="1", aps="0.1", cur="CAD", fx="1")))
+    add("RoC with shares", T(H, buy, R(act="RoC", td="2020-07-01", sd="2020-07-01", sh="3", aps="0.1")))
+    add("RoC in USD", T(H, buy, R(act="RoC", td="2020-07-01", sd="2020-07-01", sh="", aps="0.1", cur="USD", fx="1.25")))
+    add("numbers: plus sign, leading dot, trailing dot, many digits",
+        T(H, R(sh="+10", aps=".5", com="1."), R(td="2020-03-03", sd="2020-03-05", sh="0.00000001", aps="123456789.123456789123456789")))
+    add("numbers: negative commission", T(H, R(com="-1")))
+    add("numbers: negative zero commission and price", T(H, R(com="-0", aps="-0.00")))
+    add("numbers: exponent form", T(H, R(sh="1e3")))
+    add("numbers: thousands separator", T(H, R(sh="1,000")))
+    lossy = [R(sh="10", aps="10"), R(act="Sell", td="2020-03-10", sd="2020-03-12", sh="10", aps="5", sfl="-20!"),
+             R(td="2020-03-20", sd="2020-03-22", sh="5", aps="5"),
+             R(act="SfLA", td="2020-03-12", sd="2020-03-12", sh="5", aps="4")]
+    add("supplied superficial loss with !", T(H, *lossy))
+    add("supplied superficial loss without !", T(H, lossy[0], R(act="Sell", td="2020-03-10", sd="2020-03-12", sh="10", aps="5", sfl="-25.00"), lossy[2]))
+    add("supplied superficial loss 0! and -0", T(H, lossy[0], R(act="Sell", td="2020-03-10", sd="2020-03-12", sh="5", aps="5", sfl="0!"),
+                                                R(act="Sell", td="2020-03-11", sd="2020-03-13", sh="5", aps="5", sfl="-0")))
+    add("supplied superficial loss positive", T(H, lossy[0], R(act="Sell", td="2020-03-10", sd="2020-03-12", sh="5", aps="5", sfl="3")))
+    add("supplied superficial loss on a buy (ignored)", T(H, R(sfl="-3!")))
+    # securities: trimmed cells, byte order of names
+    add("padded cells and the order of security names",
+        T(H, R(sec=" foo "), R(sec="FOO", sh=" 3 ", aps="\t2.5"), R(sec="Foo2"), R(sec="1ST"), R(sec="foo", act="Sell", td="2020-06-01", sd="2020-06-03", sh="10", aps="1")),
+        {"foo": (D(5), D(500, 2)), "ZZZ": (D(1), D(100, 2))})
+    return c
